@@ -257,6 +257,19 @@ func (g *c09Gen) dump() *ast.Node {
 	return ast.Print(args...)
 }
 
+// iterDump iterates v3 and $ (when they are objects or arrays): a second
+// observation device next to print. It must show exactly the members that
+// exist now, whatever reference they were added through.
+func (g *c09Gen) iterDump() []*ast.Node {
+	var out []*ast.Node
+	for i, it := range []*ast.Node{ast.Id("v3"), ast.Dollar()} {
+		marker := fmt.Sprintf("K%d.%d", g.step, i)
+		out = append(out, ast.If(ast.Bin("||", ast.Is(it, "object"), ast.Is(it.Clone(), "array")),
+			ast.Block(ast.ForIn("dk", "dv", it.Clone(), ast.Block(ast.Print(ast.Str(marker), ast.Id("dk")), ast.Print(ast.Str("="), ast.Id("dv")))))))
+	}
+	return out
+}
+
 func (g *c09Gen) reader(st ref.Result) *ast.Node {
 	// read-only expressions, including reads of missing indices and members
 	base := rapid.SampledFrom([]*ast.Node{ast.Id("v2"), ast.Id("v3"), ast.Dollar(), ast.Id("v0")}).Draw(g.t, "rbase").Clone()
@@ -355,6 +368,17 @@ func (g *c09Gen) action() bool {
 		}
 		stmts = append(stmts, ast.ForIn("e", "w", ast.Id(v), body))
 		label = "forin-binding"
+	case k == 19 && g.b("iterate"):
+		// iterate a container (keys / indices and values) as a second observation
+		// device next to print: it must show exactly the members that exist now
+		v := rapid.SampledFrom([]string{"v2", "v3", "$"}).Draw(g.t, "itv")
+		it := ast.Id(v)
+		if v == "$" {
+			it = ast.Dollar()
+		}
+		stmts = append(stmts, ast.If(ast.Bin("||", ast.Is(it, "object"), ast.Is(it.Clone(), "array")),
+			ast.Block(ast.ForIn("ik", "iv", it.Clone(), ast.Block(ast.Print(ast.Str(fmt.Sprintf("K%d", g.step)), ast.Id("ik")), ast.Print(ast.Str("V"), ast.Id("iv")))))))
+		label = "iterate"
 	case k == 18:
 		// length-changing methods through a variable or through a parameter
 		v := rapid.SampledFrom([]string{"v2", "v3", "v0"}).Draw(g.t, "pv")
@@ -403,6 +427,7 @@ func (g *c09Gen) action() bool {
 		}
 	}
 	g.stmts = append(g.stmts, g.dump())
+	g.stmts = append(g.stmts, g.iterDump()...)
 	return true
 }
 
@@ -530,7 +555,7 @@ func TestC09(t *testing.T) {
 	if evThorough() {
 		maxActions = 40
 	}
-	check(rec, "locality-random", scale(6000, 120000), func(rt *rapid.T) {
+	check(rec, "locality-random", scale(6000, 2500000), func(rt *rapid.T) {
 		c, labels := genC09(rt, maxActions)
 		var ls []string
 		for l := range labels {
@@ -538,7 +563,7 @@ func TestC09(t *testing.T) {
 		}
 		runDiff(rec, rt, "locality", c, true, func(*diffResult) bool { return c09Nontrivial(labels, c) }, ls...)
 	})
-	check(rec, "pure-read-random", scale(6000, 120000), func(rt *rapid.T) {
+	check(rec, "pure-read-random", scale(6000, 3000000), func(rt *rapid.T) {
 		c := genC09Pure(rt)
 		msg, compared := c09PureCheck(c)
 		if !compared {
